@@ -198,7 +198,7 @@ example :
 /-- export two buffers, drop the originals, import: the imported regions keep the struct (and
 through it the original regions) alive; dropping them in any order releases everything once -/
 example :
-    let s := reach 5 [.allocVec 0 8 8 1 1, .allocVec 1 4 4 1 2, .exportFfi [0, 1] 2, .drop 0, .drop 1,
+    let s := reach 5 [.allocVec 0 8 8 1 1, .allocVec 1 8 8 1 2, .exportFfi [0, 1] 2, .drop 0, .drop 1,
       .importFfi 2 [3, 4]]
     specOk s = true ∧ s.owners.map Owner.drops = [0] ∧ s.regions.map Region.released = [false, false, false, false] ∧
     (step (step s (.drop 4)).1 (.drop 3)).1.regions.map Region.relCount = [1, 1, 1, 1] ∧
